@@ -348,7 +348,7 @@ func (e *EtcdOp) WatchPartition(ctx context.Context, filter api.PartitionFilter)
 						if err != nil {
 							log.Warn("fail to unmarshal the partition info",
 								zap.String("key", partitionKey), zap.String("value", util.Base64Encode(event.Kv.Value)), zap.Error(err))
-							if !strings.Contains(info.PartitionName, e.defaultPartitionName) &&
+							if !e.isDefaultPartitionName(info.PartitionName) &&
 								event.PrevKv != nil {
 								beforeInfo := &pb.PartitionInfo{}
 								err := proto.Unmarshal(event.PrevKv.Value, info)
@@ -385,7 +385,7 @@ func (e *EtcdOp) WatchPartition(ctx context.Context, filter api.PartitionFilter)
 							continue
 						}
 						if info.State != pb.PartitionState_PartitionCreated ||
-							strings.Contains(info.PartitionName, e.defaultPartitionName) {
+							e.isDefaultPartitionName(info.PartitionName) {
 							log.Info("partition state is not created or partition name is default",
 								zap.Int64("collection_id", info.CollectionId),
 								zap.String("partition name", info.PartitionName), zap.Any("state", info.State))
@@ -733,13 +733,20 @@ func (e *EtcdOp) internalGetAllPartition(ctx context.Context, filters []api.Part
 	return existedPartitionInfos, nil
 }
 
+// isDefaultPartitionName tells whether the partition is the default partition or one of the partitions "<default>_<n>"
+// that a partition-key collection is created with; they come with the collection and are not replicated on their own.
+// A user partition whose name merely contains the default partition's name is an ordinary partition.
+func (e *EtcdOp) isDefaultPartitionName(name string) bool {
+	return name == e.defaultPartitionName || strings.HasPrefix(name, e.defaultPartitionName+"_")
+}
+
 func (e *EtcdOp) GetAllPartition(ctx context.Context, filter api.PartitionFilter) ([]*pb.PartitionInfo, error) {
 	return e.internalGetAllPartition(ctx, []api.PartitionFilter{
 		func(info *pb.PartitionInfo) bool {
 			if (info.State != pb.PartitionState_PartitionCreated &&
 				info.State != pb.PartitionState_PartitionDropping &&
 				info.State != pb.PartitionState_PartitionDropped) ||
-				strings.Contains(info.PartitionName, e.defaultPartitionName) {
+				e.isDefaultPartitionName(info.PartitionName) {
 				log.Info("partition state is not created/dropped or partition name is default",
 					zap.String("partition_name", info.PartitionName),
 					zap.String("state", info.State.String()))
